@@ -38,3 +38,4 @@ def run(ctx, R):
     driver.rule_bind_guard(ctx, R, F)    # a VM reads the cache / dataset it is bound to: the binding follows every set_cache that changes what a bind captures
     a64hsem.rule_mem_hsem(ctx, R)
     rvhsem.rule_mem_hsem(ctx, R)
+    dsinit.rule_range(ctx, R, F)    # dataset initialisation writes exactly the requested items, never past the range or the allocation
